@@ -205,7 +205,7 @@ Proof.
   intros orc_r. apply C07_stuck_is_permanent.
   - assert (E : eff7 w7_cfg w7_sp (w_core w7_w0) (w_core w1)) by (unfold w1; apply faulted_effect; vm_compute; reflexivity).
     assert (T0 : typed (k_st (w_core w7_w0))) by (apply (i_typed _ _ _ (reach6_inv _ _ _ w7_reach))).
-    unfold break_lock. cbn [w_core k_st set_locked].
+    apply typed_break_lock.
     destruct E as [(E & _)|(_ & _ & _ & i & k & x & _ & _ & _ & HT)].
     + rewrite E. exact T0.
     + eapply torn_typed; eauto.
